@@ -40,7 +40,7 @@ class HostGadget(Contract):
     spec(xs, rs, st) -> list of (clause, z3 Bool) over operand values xs and result values rs (z3 Bools)."""
 
     def __init__(self, relpath, qualname, n_in, spec, label=None, kwargs=None, shape=None, basis_aig=False,
-                 max_new=None, arg_builder=None, result_labels=None, expect_outputs_unchanged=True, distinct_inputs=False):
+                 max_new=None, arg_builder=None, result_labels=None, expect_outputs_unchanged=True, distinct_inputs=False, inputs_positional=True):
         self.relpath, self.qualname = relpath, qualname
         self.n_in, self.spec = n_in, spec
         self.name = label or qualname
@@ -51,10 +51,12 @@ class HostGadget(Contract):
         self.arg_builder = arg_builder
         self.expect_outputs_unchanged = expect_outputs_unchanged
         self.distinct_inputs = distinct_inputs
+        self.inputs_positional = inputs_positional
 
     def setup(self, it, ctx):
         install_label_loops(it)
         CM.install_user_contracts(it)
+        CM.install_order_contracts(it)
         c, h = CM.make_circuit(it, ctx, tag='host')
         S0 = h.S
         xs = [z3.Const(f'x{i}', LabelSort) for i in range(self.n_in)]
@@ -88,6 +90,7 @@ class HostGadget(Contract):
 
     def post(self, it, ctx, result, st):
         h, S0 = st['h'], st['S0']
+        CM.sync_fields(it, h)
         S1 = h.S
         V = h.V
         writes = [e for e in h.events if e[0] == 'gate-write']
@@ -103,7 +106,10 @@ class HostGadget(Contract):
                                                                          S1.op(l, i) == S0.op(l, i), S1.opc(l, x) == S0.opc(l, x))))
         if self.expect_outputs_unchanged:
             yield ('frame/outputs-unchanged', z3.And(S1.out_n == S0.out_n, S1.out_elem(i) == S0.out_elem(i), S1.out_cnt(l) == S0.out_cnt(l)))
-        yield ('frame/inputs-unchanged', z3.And(S1.in_n == S0.in_n, S1.in_elem(i) == S0.in_elem(i), S1.in_cnt(l) == S0.in_cnt(l)))
+        if self.inputs_positional:
+            yield ('frame/inputs-unchanged', z3.And(S1.in_n == S0.in_n, S1.in_elem(i) == S0.in_elem(i), S1.in_cnt(l) == S0.in_cnt(l)))
+        else:       # the generator may reorder the host's inputs (documented side effect of add_plus_one): same multiset
+            yield ('frame/inputs-same-multiset', z3.And(S1.in_n == S0.in_n, S1.in_cnt(l) == S0.in_cnt(l)))
         # ghost rank for the new circuit: fresh gates above their operands, in creation order
         rank = S0.rank
         for e in defined:
